@@ -695,9 +695,14 @@ def _ordered_reads_of_sets(fnode):
             parents[c] = x
     own = set(map(id, own_scope_nodes(fnode)))
 
+    sorted_in_place = {c.func.value.id for c in ast.walk(fnode) if isinstance(c, ast.Call) and isinstance(c.func, ast.Attribute) and c.func.attr == "sort" and isinstance(c.func.value, ast.Name)}
+
     def order_free(node):
-        """the sequence built at `node` is consumed at once by something that ignores order"""
+        """the sequence built at `node` is consumed at once by something that ignores order, or is bound to a
+        name that is sorted in place (`cols = list(S); cols.sort()`)"""
         par = parents.get(node)
+        if isinstance(par, ast.Assign) and len(par.targets) == 1 and isinstance(par.targets[0], ast.Name) and par.targets[0].id in sorted_in_place:
+            return True
         return isinstance(par, ast.Call) and node in par.args and isinstance(par.func, ast.Name) and par.func.id in _ORDER_FREE_CONSUMERS
 
     out = []
@@ -737,7 +742,9 @@ def f(tensor, row_modes):
     column_modes = list(rest)
     ok = sorted(rest)
     n = len(list(rest))
-    return [m for m in rest], column_modes, ok, n
+    also_ok = list(rest)
+    also_ok.sort()
+    return [m for m in rest], column_modes, ok, n, also_ok
 """
 
 
